@@ -1,6 +1,6 @@
-\* verdict cache: 2 pairs (same user, two passwords), truth changes, waits; every history of 6 steps
+\* verdict cache: 2 pairs whose user and password run together to the same text (ab + c, a + bc): a key must keep them apart, truth changes, waits; every history of 6 steps
 CONSTANTS
-  Pairs = {"u:p1", "u:p2"}
+  Pairs = {"ab:c", "a:bc"}
   MaxSteps = 5
   CacheOn = TRUE
 INIT CInit
